@@ -34,7 +34,7 @@ func TestVerifGoldilocksScalar(t *testing.T) {
 	}}
 	full := bf.Pow2(448)
 	sc := func(v *big.Int) (s goldilocks.Scalar) { copy(s[:], bf.LE(v, 56)); return }
-	bf.Chunks(nTuples(), chunk, func(lo, hi int, c bf.Ctr) {
+	bf.Chunks(nTuplesGo(), chunk, func(lo, hi int, c bf.Ctr) {
 		for i := lo; i < hi; i++ {
 			r := lib.NewRng("c12/"+n, i)
 			var xv, yv *big.Int
@@ -55,6 +55,13 @@ func TestVerifGoldilocksScalar(t *testing.T) {
 					yv = new(big.Int).Sub(full, big.NewInt(int64(1+r.Intn(40))))
 				default:
 					yv = gen.Raw(r)
+				}
+			}
+			if i < 10 { // fixed operands first, each under the five aliasing patterns
+				xv = new(big.Int).Sub(full, big.NewInt(1))
+				yv = new(big.Int).Set(xv)
+				if i >= 5 {
+					xv = new(big.Int)
 				}
 			}
 			class := "unreduced-operand"
@@ -214,7 +221,7 @@ func runGroupScalar(t *testing.T, d grpDesc) {
 			viol("wrong-residue:"+n+"."+op, monGroup, kv...)
 		}
 	}
-	total := nTuples()
+	total := nTuplesGo()
 	if d.short { // math/big underneath: a quarter of the volume is plenty
 		total /= 4
 	}
